@@ -189,3 +189,6 @@ def run(ck):
     ck.run_rule("C03.R7", "address arithmetic behind PC-relative targets (LinearPolynomial algebra)", 18, c03.rule_R7)
     from ..rules import thunks
     ck.run_rule("G1", "operand thunks read their own state: captured by value, never updated in place", 20, thunks.rule_G1)
+    from . import c16, c02
+    ck.run_rule("C16.R2", "a branch inside a repeated body is assembled at its own copy's address (each copy starts where the previous one ended)", 4, c16.rule_R2)
+    ck.run_rule("C02.R2", "the address a statement is given is the number of bytes before it (accumulator pairing)", 5, c02.rule_R2)
